@@ -1,20 +1,28 @@
 import TantivyModel.Model.Grammar.Chars
 /-!
-# C16 — a printer for operand lists of words (the printer of `C16_print_parse_operands`)
+# C16 — a printer for the well-formed fragment (the printer of `C16_print_parse_*`)
 
-`printList lead occ w more k` is the text `[+|-]w ( [AND |OR ] [+|-]wᵢ )*` with the layout choices
-made explicit: `lead` leading blanks, `1 + sp1` blanks before each further operand, `sp2` blanks
-after an operator keyword, `k` trailing blanks.
+An operand (`Opd`) is a text together with the tree it stands for: a word, or a parenthesised
+operand list. `printList lead occ o more k tail` is the text
+`[+|-]o ( [AND |OR ] [+|-]oᵢ )*` with the layout choices made explicit: `lead` leading blanks,
+`1 + sp1` blanks before each further operand, `sp2` blanks after an operator keyword, `k`
+trailing blanks, followed by `tail` (nothing, or the `)` of the enclosing group).
 -/
 namespace TantivyModel.Grammar.Chars
 open TantivyModel.Grammar
 
-/-- one printed operand: operator before it, occur marker, the word, and the layout choices
-    (extra blanks before the item, blanks after the operator keyword) -/
+/-- a printed operand: its text, the tree it denotes, the fuel `pLeaf` needs to read it -/
+structure Opd where
+  text : Str
+  leaf : Ast CLeaf
+  cost : Nat
+
+/-- one further operand of a list: operator before it, occur marker, the operand and the layout
+    choices (extra blanks before the item, blanks after the operator keyword) -/
 structure PItem where
   op : Option BinOp
   occ : Option Occur
-  word : Str
+  opd : Opd
   sp1 : Nat
   sp2 : Nat
 
@@ -37,20 +45,38 @@ def normOcc : Option Occur → Option Occur
 
 def leafOf (w : Str) : Ast CLeaf := .leaf (.literal none w .none 0 false)
 
-def itemOf (it : PItem) : Item CLeaf := (it.op, normOcc it.occ, leafOf it.word)
+def itemOf (it : PItem) : Item CLeaf := (it.op, normOcc it.occ, it.opd.leaf)
 
 /-- the text of one operand after its separating blank -/
 def itemText (it : PItem) : Str :=
-  opText it.op ++ (if it.op.isSome then spaces it.sp2 else []) ++ markText it.occ ++ it.word
+  opText it.op ++ (if it.op.isSome then spaces it.sp2 else []) ++ markText it.occ ++ it.opd.text
 
 /-- the text after the first operand: each further operand with at least one blank before it,
-    then `k` trailing blanks -/
-def printRest : List PItem → Nat → Str
-  | [], k => spaces k
-  | it :: more, k => ' ' :: (spaces it.sp1 ++ (itemText it ++ printRest more k))
+    then `k` trailing blanks and `tail` -/
+def printRest : List PItem → Nat → Str → Str
+  | [], k, tail => spaces k ++ tail
+  | it :: more, k, tail => ' ' :: (spaces it.sp1 ++ (itemText it ++ printRest more k tail))
 
-/-- the printed operand list: leading blanks, `[+|-]word`, the other operands, trailing blanks -/
-def printList (lead : Nat) (occ : Option Occur) (w : Str) (more : List PItem) (k : Nat) : Str :=
-  spaces lead ++ (markText occ ++ (w ++ printRest more k))
+/-- the printed operand list -/
+def printList (lead : Nat) (occ : Option Occur) (o : Opd) (more : List PItem) (k : Nat) (tail : Str) : Str :=
+  spaces lead ++ (markText occ ++ (o.text ++ printRest more k tail))
+
+/-- fuel an operand list needs after its first operand -/
+def needRest : List PItem → Nat
+  | [] => 3
+  | it :: more => it.opd.cost + 1 + needRest more
+
+/-- the tree of an operand list: the strict fold of its items (which never fails) -/
+def listTree (occ : Option Occur) (o : Opd) (more : List PItem) : Ast CLeaf :=
+  match strictAst (normOcc occ, o.leaf) (more.map itemOf) with
+  | .ok t => t
+  | .error _ => Ast.emptyQuery
+
+/-- a word as an operand -/
+def wordOpd (w : Str) : Opd := ⟨w, leafOf w, 1⟩
+
+/-- a parenthesised operand list as an operand -/
+def groupOpd (lead : Nat) (occ : Option Occur) (o : Opd) (more : List PItem) (k : Nat) : Opd :=
+  ⟨'(' :: printList lead occ o more k [')'], listTree occ o more, o.cost + needRest more + 3⟩
 
 end TantivyModel.Grammar.Chars
